@@ -8,15 +8,15 @@ git checkout -q -- src
 cp "$SD/demo.rs" tests/zz_seed_demo.rs
 export CARGO_NET_OFFLINE=true
 FEAT=""
-grep -q "P256\|use-p256\|XChaCha" "$SD/demo.rs" && FEAT="--features use-p256,use-xchacha20poly1305,ring-resolver"
-grep -q "RingResolver\|ring" "$SD/demo.rs" && FEAT="--features use-p256,use-xchacha20poly1305,ring-resolver"
+grep -q "P256\|use-p256\|XChaCha" "$SD/demo.rs" && FEAT="--features use-p256,use-xchacha20poly1305,ring-resolver,risky-raw-split"
+grep -q "RingResolver\|ring" "$SD/demo.rs" && FEAT="--features use-p256,use-xchacha20poly1305,ring-resolver,risky-raw-split"
 echo "== demo without change ($FEAT)"
 cargo test --offline $FEAT --test zz_seed_demo > "$SD/confirm_demo_clean.log" 2>&1; A=$?
 git apply "$SD/patch.diff" || { echo "patch does not apply"; rm -f tests/zz_seed_demo.rs; exit 3; }
 echo "== baseline with change"
 mv tests/zz_seed_demo.rs /tmp/zz_seed_demo.$$.rs
 cargo test --workspace --no-fail-fast --offline > "$SD/confirm_baseline_mut.log" 2>&1; B=$?
-cargo build --offline --features use-p256,use-xchacha20poly1305,ring-resolver > "$SD/confirm_build_feat.log" 2>&1; B2=$?
+cargo build --offline --features use-p256,use-xchacha20poly1305,ring-resolver,risky-raw-split > "$SD/confirm_build_feat.log" 2>&1; B2=$?
 mv /tmp/zz_seed_demo.$$.rs tests/zz_seed_demo.rs
 echo "== demo with change"
 cargo test --offline $FEAT --test zz_seed_demo > "$SD/confirm_demo_mut.log" 2>&1; C=$?
